@@ -12,7 +12,7 @@ def inproc(work):
     out = os.path.join(work, "layout.json")
     if os.path.exists(out): os.remove(out)
     r = go_test_overlay("ssa", {"zz_layout_verif_test.go": os.path.join(HERE, "layout_verif_test.go")}, "^TestVerifLayout$", tags=("llvm14",),
-                        env_extra={"VERIF_OUT": out}, extra_overlay={"/repo/ssa/zz_verif_opaque.go": "/verif/tc/src/opaque.go"}, timeout=3000)
+                        env_extra={"VERIF_OUT": out}, extra_overlay={os.path.join(REPO, "ssa/zz_verif_opaque.go"): "/verif/tc/src/opaque.go"}, timeout=3000)
     if r.returncode != 0 or not os.path.exists(out):
         return None, r.stdout[-3000:] + r.stderr[-2000:]
     return json.load(open(out))[0], ""
